@@ -70,6 +70,13 @@ func mainModule() []byte {
 	m.AddFunc(wb.Func{Params: i32, Results: i32, Export: "recfin", Body: wb.Cat(bump1,
 		wb.LocalGet(0), wasm.OpcodeI32Eqz, wasm.OpcodeIf, 0x40, wb.I32Const(0), wasm.OpcodeReturn, wasm.OpcodeEnd,
 		wb.LocalGet(0), wb.I32Const(1), wasm.OpcodeI32Sub, wb.Call(recfin), wb.I32Const(1), wasm.OpcodeI32Add)})
+	// recmix(x): x = 2*depth + flag; at the bottom it traps (flag 1) or returns 0: ONE function object for deep failures and deep successes
+	recmix := uint32(len(m.M.FunctionSection)) + 2
+	m.AddFunc(wb.Func{Params: i32, Results: i32, Export: "recmix", Body: wb.Cat(bump1,
+		wb.LocalGet(0), wb.I32Const(2), wasm.OpcodeI32LtU, wasm.OpcodeIf, 0x40,
+		wb.LocalGet(0), wasm.OpcodeIf, 0x40, wasm.OpcodeUnreachable, wasm.OpcodeEnd,
+		wb.I32Const(0), wasm.OpcodeReturn, wasm.OpcodeEnd,
+		wb.LocalGet(0), wb.I32Const(2), wasm.OpcodeI32Sub, wb.Call(recmix), wb.I32Const(1), wasm.OpcodeI32Add)})
 	// infinite recursion with three frame sizes (0, 40, 400 live i64 locals)
 	var infs [3]uint32
 	for v, nloc := range []int{0, 40, 400} {
